@@ -167,6 +167,50 @@ func observeFilter(g lint.Registry, f FilterSpec) (coq string, class string, fr 
 
 var regexPool = []string{"^e_", "^w_", "^n_", "crl", "ocsp", "rsa", "^e_sub_c", "dnsname", "^$", ".", "_ca_", "smime", "e_ev_.*", "(?i)E_RSA", "x{3}", "^w_.*valid", "key_usage$"}
 
+// derivedRegex: expressions built from the registered names themselves: a whole name or a fragment of one, anchored at
+// neither, one or both ends in each spelling of an anchor, quoted, as one branch of an alternation, with flags.  An
+// anchored literal that is a fragment of longer names must select nothing but an exact match.
+func derivedRegex(rng *Rng, names []string) string {
+	n := pick(rng, names)
+	lit := n
+	switch rng.Intn(4) {
+	case 0:
+		a := rng.Intn(len(n))
+		b := a + 1 + rng.Intn(len(n)-a)
+		lit = n[a:b]
+	case 1:
+		if i := strings.LastIndex(n, "_"); i > 2 {
+			lit = n[:i]
+		}
+	}
+	q := regexp.QuoteMeta(lit)
+	switch rng.Intn(12) {
+	case 0:
+		return "^" + q + "$"
+	case 1:
+		return "\\A" + q + "\\z"
+	case 2:
+		return "^" + q
+	case 3:
+		return q + "$"
+	case 4:
+		return "^(?:" + q + ")$"
+	case 5:
+		return "^" + q + "$|^" + regexp.QuoteMeta(pick(rng, names)) + "$"
+	case 6:
+		return "(?i)^" + strings.ToUpper(q) + "$"
+	case 7:
+		return "^" + q + "\\z"
+	case 8:
+		return "\\A" + q
+	case 9:
+		return "(?m)^" + q + "$"
+	case 10:
+		return "\\b" + q + "\\b"
+	}
+	return q
+}
+
 func randomFilterSpec(rng *Rng, names, srcs []string, few bool) FilterSpec {
 	var f FilterSpec
 	f.NilLists = rng.Bool()
@@ -199,6 +243,9 @@ func randomFilterSpec(rng *Rng, names, srcs []string, few bool) FilterSpec {
 	mode := rng.Intn(10)
 	if mode < 3 {
 		f.Regex = pick(rng, regexPool)
+		if rng.Intn(2) == 0 {
+			f.Regex = derivedRegex(rng, names)
+		}
 		if rng.Intn(8) == 0 {
 			f.IncludeNames = []string{pickName()}
 		}
@@ -318,6 +365,20 @@ func init() {
 			{IncludeNames: []string{names[0], names[0], " " + names[1]}}, {Regex: ".", IncludeNames: []string{names[3]}},
 			{Regex: ".", ExcludeNames: []string{"nosuch"}}, {IncludeNames: []string{"nosuch", "alsonot"}, ExcludeNames: []string{"third"}},
 			{IncludeSources: []string{"CABF_BR"}, ExcludeSources: []string{"CABF_BR"}}}
+		// anchored literals: a name that is a fragment of longer names, and a fragment that is no name at all
+		{
+			k := 0
+			for _, a := range names {
+				for _, b := range names {
+					if a != b && strings.Contains(b, a) && k < 6 {
+						specs = append(specs, FilterSpec{Regex: "^" + a + "$"}, FilterSpec{Regex: "\\A" + a + "\\z"})
+						k++
+						break
+					}
+				}
+			}
+			specs = append(specs, FilterSpec{Regex: "^" + names[0][:len(names[0])-1] + "$"}, FilterSpec{Regex: "^" + names[0][2:] + "$"}, FilterSpec{Regex: "^crl$"}, FilterSpec{Regex: "^" + names[5] + "$"})
+		}
 		// direct: a name list entry that is not a registered lint name after trimming - blank entries included - is an
 		// error, for both lists, alone or next to valid names and other options
 		for _, bad := range []string{"", " ", "\t", "  \n", "nosuchlint", names[0] + "x", strings.ToUpper(names[0]), names[0] + " " + names[1], ","} {
